@@ -761,7 +761,7 @@ class Engine:
         if isinstance(op, (ast.NotEq, ast.IsNot)):
             return z3.Not(self.equal(a, b))
         if isinstance(op, (ast.In, ast.NotIn)):
-            r = self.contains(st, b, a)
+            r = self.contains(st, b, a, line)
             return r if isinstance(op, ast.In) else z3.Not(r)
         if isinstance(a.t, TBool):
             a = self.coerce(a, INT)
@@ -786,7 +786,15 @@ class Engine:
                 return a.e >= b.e
         raise OutOfSubset('compare %s on %s,%s' % (type(op).__name__, a.t, b.t))
 
-    def contains(self, st, container, item):
+    def contains(self, st, container, item, line=None):
+        if isinstance(container.t, TOpt):
+            if line is not None:
+                self.prove(st, z3.Not(opt_is_none(container)), 'noraise', line, 'in-None')
+            container = opt_val(container)
+        if isinstance(item.t, TOpt) and isinstance(container.t, TStr):
+            if line is not None:
+                self.prove(st, z3.Not(opt_is_none(item)), 'noraise', line, 'None-in-str')
+            item = opt_val(item)
         if isinstance(container.t, TStr) and isinstance(item.t, TStr):
             return z3.Contains(container.e, item.e)
         if isinstance(container.t, TObj) and container.t.kind == 'charset':
@@ -1005,7 +1013,11 @@ class Engine:
         cache = st.ghost.setdefault('__strip_cache__', {})
         if key in cache:
             return cache[key]
-        r = fresh(STR, 'strip')
+        fname = 'strip_%s%s_%s' % ('l' if left else '', 'r' if right else '',
+                                   'ws' if chars is None else ''.join('%x_' % ord(c) for c in cs))
+        if fname not in self.m.ufuncs:
+            self.m.ufuncs[fname] = ([STR], STR)
+        r = self.call_ufunc(fname, [s])
         p = z3.String(fresh_name('sp')) if left else z3.StringVal('')
         q = z3.String(fresh_name('sq')) if right else z3.StringVal('')
         st.assume(s.e == z3.Concat(p, r.e, q))
